@@ -203,7 +203,7 @@ func rep(t *rt.Thread, c *rt.GoCont) (rt.Cont, error) {
 		return nil, errors.New("#2 out of range")
 	}
 	var sep []byte
-	if c.NArgs() >= 3 {
+	if c.NArgs() >= 3 && !c.Arg(2).IsNil() {
 		lsep, err := c.StringArg(2)
 		if err != nil {
 			return nil, err
@@ -287,7 +287,7 @@ func sub(t *rt.Thread, c *rt.GoCont) (rt.Cont, error) {
 	}
 	i := luastrings.StringNormPos(s, int(ii))
 	j := len(s)
-	if c.NArgs() >= 3 {
+	if c.NArgs() >= 3 && !c.Arg(2).IsNil() {
 		jj, err := c.IntArg(2)
 		if err != nil {
 			return nil, err
